@@ -7,12 +7,18 @@ import Hts.Lemmas.BamStream
 namespace Hts.Model.Bam
 open Hts.Spec.Bam (Elem AuxValue Alignment le twos)
 
-/-- the in-memory `sam.Aux` of a typed value: the specification's bytes without the NUL of `Z`/`H` -/
+/-- the bytes a string of hex digits stands for (`[]` past the first non-digit; total on valid values) -/
+def hexBytes (s : List Byte) : List Byte :=
+  match hexDec s with
+  | .ok bs => bs
+  | .error _ => []
+
+/-- the in-memory `sam.Aux` of a typed value: `Z` without its NUL, `H` as the DECODED bytes of its digit string -/
 def auxMem (t0 t1 : Byte) : AuxValue → List Byte
   | .char c => [t0, t1, 65#8, c]
   | .num t v => [t0, t1, t.letter] ++ le t.width (twos t.width v)
   | .str s => [t0, t1, 90#8] ++ s
-  | .hex s => [t0, t1, 72#8] ++ s
+  | .hex s => [t0, t1, 72#8] ++ hexBytes s
   | .arr t vs => [t0, t1, 66#8, t.letter] ++ le 4 vs.length ++ vs.flatMap (fun v => le t.width (twos t.width v))
 
 def optRef (x : Int) : Option Nat := if x < 0 then none else some x.toNat
@@ -30,16 +36,47 @@ theorem letter_notZH (t : Elem) : isZH t.letter = false ∧ (t.letter == 66#8) =
 theorem elemWidth_letter (t : Elem) : elemWidth t.letter = some t.width := by
   cases t <;> rfl
 
-theorem encAux_auxMem (t0 t1 : Byte) (v : AuxValue) :
+/-- an upper-case hex digit is the digit `hexEnc` writes for its value -/
+theorem hexDigit_unhex : ∀ c : Byte, Hts.Spec.Bam.isHexDigit c = true →
+    ∃ n, n < 16 ∧ unhex c = some n ∧ hexDigit n = c :=
+  Hts.Lemmas.byte_forall _ (by decide +kernel)
+
+/-- H payload: digits → bytes → digits, for a valid digit string -/
+theorem hexEnc_hexBytes : ∀ (s : List Byte), s.length % 2 = 0 → (∀ c ∈ s, Hts.Spec.Bam.isHexDigit c = true) →
+    hexDec s = .ok (hexBytes s) ∧ hexEnc (hexBytes s) = s
+  | [], _, _ => ⟨rfl, rfl⟩
+  | [_], h, _ => by simp at h
+  | a :: b :: rest, h, hd => by
+    obtain ⟨n, hn, ha, han⟩ := hexDigit_unhex a (hd a (by simp))
+    obtain ⟨m, hm, hb, hbm⟩ := hexDigit_unhex b (hd b (by simp))
+    obtain ⟨ih1, ih2⟩ := hexEnc_hexBytes rest (by simp only [List.length_cons] at h; omega)
+      (fun c hc => hd c (by simp [hc]))
+    have hdec : hexDec (a :: b :: rest) = .ok (byteOf (n * 16 + m) :: hexBytes rest) := by
+      simp only [hexDec, ha, hb, ih1]
+    have hbytes : hexBytes (a :: b :: rest) = byteOf (n * 16 + m) :: hexBytes rest := by
+      simp only [hexBytes, hdec]
+    refine ⟨by rw [hbytes]; exact hdec, ?_⟩
+    have h1 : (byteOf (n * 16 + m)).toNat / 16 = n := by rw [byteOf_toNat]; omega
+    have h2 : (byteOf (n * 16 + m)).toNat % 16 = m := by rw [byteOf_toNat]; omega
+    rw [hbytes]
+    simp only [hexEnc, h1, h2, han, hbm, ih2]
+
+theorem encAux_auxMem (t0 t1 : Byte) (v : AuxValue) (hv : v.Valid) :
     encAux (auxMem t0 t1 v) = Hts.Spec.Bam.auxBytes t0 t1 v := by
   cases v with
-  | char c => rfl
+  | char c => rw [auxMem, encAux_other _ _ _ _ rfl]; rfl
   | num t x =>
     have := (letter_notZH t).1
-    simp [encAux, auxMem, Hts.Spec.Bam.auxBytes, this]
-  | str s => simp [encAux, auxMem, Hts.Spec.Bam.auxBytes, isZH]
-  | hex s => simp [encAux, auxMem, Hts.Spec.Bam.auxBytes, isZH]
-  | arr t vs => simp [encAux, auxMem, Hts.Spec.Bam.auxBytes, isZH]
+    simp only [auxMem, List.cons_append, List.nil_append]
+    rw [encAux_other _ _ _ _ this]; rfl
+  | str s => simp only [auxMem, List.cons_append, List.nil_append]; rw [encAux_Z]; simp [Hts.Spec.Bam.auxBytes]
+  | hex s =>
+    have h2 := (hexEnc_hexBytes s hv.1 hv.2).2
+    simp only [auxMem, List.cons_append, List.nil_append]
+    rw [encAux_H, h2]; simp [Hts.Spec.Bam.auxBytes]
+  | arr t vs =>
+    simp only [auxMem, List.cons_append, List.nil_append]
+    rw [encAux_other _ _ _ _ rfl]; simp [Hts.Spec.Bam.auxBytes]
 
 theorem flatMap_le_length (w : Nat) (vs : List Int) :
     (vs.flatMap (fun v => le w (twos w v))).length = vs.length * w := by
@@ -53,14 +90,13 @@ theorem auxOK_auxMem (t0 t1 : Byte) (v : AuxValue) (hv : v.Valid) (h0 : t0 ≠ 0
   | char c => simp [auxMem, auxOK_cons3]
   | num t x =>
     obtain ⟨hz, hb, ha⟩ := letter_notZH t
-    have hz' : (t.letter == 90#8 || t.letter == 72#8) = false := by simpa [isZH] using hz
-    simp [auxMem, auxOK_cons3, ha, hb, hz', elemWidth_letter, le_length]
+    have hz' : (t.letter == 90#8) = false ∧ (t.letter == 72#8) = false := by simpa [isZH] using hz
+    simp [auxMem, auxOK_cons3, ha, hb, hz'.1, hz'.2, elemWidth_letter, le_length]
   | str s =>
     have hs : 0#8 ∉ s := hv
     simp [auxMem, auxOK_cons3, hs, Ne.symm h0, Ne.symm h1]
   | hex s =>
-    have hs : 0#8 ∉ s := hv
-    simp [auxMem, auxOK_cons3, hs, Ne.symm h0, Ne.symm h1]
+    simp [auxMem, auxOK_cons3, h0, h1]
   | arr t vs =>
     have hl : vs.length < 4294967296 := hv.1
     have hle : le 4 vs.length = putU32 vs.length := le4 _
@@ -103,14 +139,23 @@ theorem cigarBytes_ofAlignment (cg : List (Nat × Nat)) (h : ∀ c ∈ cg, c.1 <
     simp only [cigarBytes, List.map_cons, List.flatMap_cons, this, le4] at ih' ⊢
     rw [ih']
 
-theorem encAuxAll_map (xs : List ((Byte × Byte) × AuxValue)) :
+theorem encAuxAll_map (xs : List ((Byte × Byte) × AuxValue)) (hv : ∀ tv ∈ xs, tv.2.Valid) :
     encAuxAll (xs.map (fun tv => auxMem tv.1.1 tv.1.2 tv.2))
       = xs.flatMap (fun tv => Hts.Spec.Bam.auxBytes tv.1.1 tv.1.2 tv.2) := by
   induction xs with
   | nil => rfl
   | cons x xs ih =>
-    simp only [encAuxAll, List.map_cons, List.flatMap_cons, encAux_auxMem] at ih ⊢
-    rw [ih]
+    have ih' := ih (fun tv htv => hv tv (by simp [htv]))
+    simp only [encAuxAll, List.map_cons, List.flatMap_cons] at ih' ⊢
+    rw [ih', encAux_auxMem _ _ _ (hv x (by simp))]
+
+theorem auxOK_ofAlignment {n : Nat} {a : Alignment} (h : a.Valid n) :
+    ∀ x ∈ (ofAlignment a).aux, auxOK x = true := by
+  intro x hx
+  simp only [ofAlignment, List.mem_map] at hx
+  obtain ⟨tv, htv, rfl⟩ := hx
+  obtain ⟨hv, h0, h1⟩ := h.aux tv htv
+  exact auxOK_auxMem _ _ _ hv h0 h1
 
 /-- the specification's record body is the writer's field sequence for the record standing for the alignment -/
 theorem body_ofAlignment {n : Nat} {a : Alignment} (h : a.Valid n) :
@@ -132,7 +177,7 @@ theorem body_ofAlignment {n : Nat} {a : Alignment} (h : a.Valid n) :
     omega
   simp only [Hts.Spec.Bam.body, hq]
   simp only [ofAlignment, bodyOf, int32_eq, le1, le2, le4, refID_optRef _ h.refID.1, refID_optRef _ h.nextRefID.1, hfl,
-    cigarBytes_ofAlignment _ h.cigar.2, encAuxAll_map, putI32_natCast _ hsl, List.length_map, List.append_assoc,
+    cigarBytes_ofAlignment _ h.cigar.2, encAuxAll_map _ (fun tv htv => (h.aux tv htv).1), putI32_natCast _ hsl, List.length_map, List.append_assoc,
     List.cons_append, List.nil_append, byteOf]
 
 
@@ -156,16 +201,11 @@ theorem wf_ofAlignment {n : Nat} {a : Alignment} (h : a.Valid n) : WF n (ofAlign
   cigar_count := by simpa [ofAlignment] using h.cigar.1
   seq_len := by simp [ofAlignment, packSeq_length]
   qual_len := h.qual
-  aux_ok := by
-    intro x hx
-    simp only [ofAlignment, List.mem_map] at hx
-    obtain ⟨tv, htv, rfl⟩ := hx
-    obtain ⟨hv, h0, h1⟩ := h.aux tv htv
-    exact auxOK_auxMem _ _ _ hv h0 h1
+  aux_ok := auxOK_ofAlignment h
   size_ok := by
     have hb := body_ofAlignment h
     have hs := h.size
-    rw [hb, bodyOf_length, encAuxAll_length] at hs
+    rw [hb, bodyOf_length, encAuxAll_length _ (auxOK_ofAlignment h)] at hs
     have hq : (qualBytes (ofAlignment a)).length = (ofAlignment a).seqLen := by
       simp only [qualBytes, ofAlignment]
       cases hqq : a.qual with
